@@ -92,8 +92,8 @@ func obs(m *machine.M) (ly, mode uint8) {
 // ---- C13 ---------------------------------------------------------------------------------
 
 type c13Case struct {
-	Kind  string `json:"kind"`  // free | offon
-	From  int    `json:"from"`  // first position (cycles since switching on) of the block
+	Kind  string `json:"kind"` // free | offon
+	From  int    `json:"from"` // first position (cycles since switching on) of the block
 	To    int    `json:"to"`
 	OffK  []int  `json:"off_k,omitempty"`
 	After int    `json:"after,omitempty"`
